@@ -229,6 +229,17 @@ func verifParse(filename string, input []byte, o *parsersim.Opts, ctx *kernel.Ct
 		})
 		return
 	}
+	if o.Overridden {
+		// defaults first, the caller's own settings after them
+		rec := true
+		if o.Recover != nil {
+			rec = *o.Recover
+		}
+		opts = append(opts, Recover(!rec), AllowInvalidUTF8(!o.AllowInvalidUTF8), MaxExpressions(o.MaxExpr/2+7))
+		if o.OverriddenEntry != "" {
+			opts = append(opts, Entrypoint(o.OverriddenEntry))
+		}
+	}
 %[6]s
 	if o.Recover != nil {
 		opts = append(opts, verifOpt(o, fmt.Sprintf("recover:%%v", *o.Recover), func() Option { return Recover(*o.Recover) }))
@@ -240,6 +251,20 @@ func verifParse(filename string, input []byte, o *parsersim.Opts, ctx *kernel.Ct
 		opts = append(opts, verifOpt(o, "entryempty", func() Option { return Entrypoint("") }))
 	} else if o.Entrypoint != "" {
 		opts = append(opts, verifOpt(o, "entry:"+o.Entrypoint, func() Option { return Entrypoint(o.Entrypoint) }))
+	}
+	if o.Overridden {
+		if o.Recover == nil {
+			opts = append(opts, Recover(true))
+		}
+		if !o.AllowInvalidUTF8 {
+			opts = append(opts, AllowInvalidUTF8(false))
+		}
+		if !o.EntryEmpty && o.Entrypoint == "" {
+			opts = append(opts, Entrypoint(""))
+		}
+		if o.MaxExpr == 0 {
+			opts = append(opts, MaxExpressions(0))
+		}
 	}
 	if o.MaxExpr > 0 {
 		if o.ReuseOptions {
@@ -253,7 +278,7 @@ func verifParse(filename string, input []byte, o *parsersim.Opts, ctx *kernel.Ct
 			opts = append(opts, MaxExpressions(o.MaxExpr))
 		}
 	}
-	if o.Shuffle != 0 {
+	if o.Shuffle != 0 && !o.Overridden {
 		parsersim.ShuffleOpts(len(opts), o.Shuffle, func(i, j int) { opts[i], opts[j] = opts[j], opts[i] })
 	}
 	if o.SpareCap {
